@@ -225,10 +225,19 @@ UniqueCases == { [kind |-> "U", k |-> k, sd |-> sd, ix |-> ix, st |-> st] : k \i
 ArgmaxCases == { [kind |-> "X", jmax |-> 1100, targets |-> {0, 1, 255, 256, 257, 511, 512, 513, 768, 1024}],
                  [kind |-> "XC", w |-> 2200, a |-> 1, b |-> 2] }
 
+\* ISSUER stage: the issuing side (SortitionManager.isProposer / isValidator) bound to the verifying side.  For every step kind the
+\* credential is drawn through the real SortitionManager over look-back functions whose seed / stake / threshold DIFFER per look-back
+\* class (ordinary: SeedLookBack / StakeLookBack; certificate: the ACoCHTFrequency look-backs), and verified with the verifier's own
+\* selection for that step (statement: "the verifier recomputes the same j and accepts a credential only for the exact key, seed, round
+\* index, step and seat count it was issued for" -- seen from the issuer: an honestly issued credential verifies with the seed / stake /
+\* threshold of its own look-back class and does not verify under the other class's seed)
+IssuerCases == { [kind |-> "I", role |-> r, k |-> k, ix |-> ix, pset |-> ps] :
+                   r \in {"proposal", "prevote", "precommit", "nextindex", "certificate"}, k \in {1, 2}, ix \in {1, 2}, ps \in {1, 2} }
+
 Leaf == (GenMode = "all") =>
           IF IsPt THEN \A r \in Points : PrintT("@@J " \o ToJson(r))
           ELSE IF IsScan THEN \A r \in ScanPoints : PrintT("@@J " \o ToJson(r))
           ELSE IF IsSeq THEN (Len(s.hist) = SeqDepth => PrintT("@@J " \o ToJson([kind |-> "S", ops |-> s.hist])))
           ELSE IF IsAlias THEN (Len(s.ops) = AliasDepth => PrintT("@@J " \o ToJson([kind |-> "A", aops |-> s.ops])))
-          ELSE \A r \in CredCases \cup TailCases \cup BigCases \cup PrioCases \cup UniqueCases \cup ArgmaxCases : PrintT("@@J " \o ToJson(r))
+          ELSE \A r \in CredCases \cup TailCases \cup BigCases \cup PrioCases \cup UniqueCases \cup ArgmaxCases \cup IssuerCases : PrintT("@@J " \o ToJson(r))
 =============================================================================
